@@ -5,7 +5,7 @@
    that (in-place numpy updates, shared dictionaries) is what the correspondence and the
    before/after oracle check on every run (tested_only: the numpy aliasing of boundary matrices). *)
 From Coq Require Import String ZArith Bool Arith List.
-From SV Require Import Names NamesFacts ListFacts Rep Fresh Complex Atomic RepInv Reach Homology Filtration Gen World WorldProofs CtorFrame DeepcopyFrame.
+From SV Require Import Names NamesFacts ListFacts Rep Fresh Complex Atomic RepInv Reach Homology Filtration Gen World WorldProofs CtorFrame DeepcopyFrame DeepcopyContents.
 
 (* any read-only query -- Betti numbers, normal forms, cycle bases, boundaries, Euler
    characteristic and integral, comparisons, ... -- returns the world it was given *)
@@ -54,3 +54,13 @@ Proof.
   exact (deepcopy_attr_names_and_owner _ _ _ _ _ H).
 Qed.
 Print Assumptions C08_deepcopy_structure_and_ownership.
+
+(* ... and, entry by entry, the copy's dictionary holds what the source's held at the call (uid owns
+   no dictionary of the source: it is fresh in exec), whether or not names share a dictionary *)
+Theorem C08_deepcopy_contents :
+  forall hp r uid hp' r', deepcopy_rep hp r uid = (hp', r') ->
+  Forall (fun p => fst (snd p) <> uid) (r_attr r) ->
+  Forall2 (fun q p => fst q = fst p /\ fst (snd q) = uid /\ heap_get hp' (snd q) = heap_get hp (snd p))
+          (r_attr r') (r_attr r).
+Proof. exact deepcopy_contents. Qed.
+Print Assumptions C08_deepcopy_contents.
